@@ -93,6 +93,29 @@ def run(tier, seed):
             jobs.append({"kind": "history", "configs": {str(k): v for k, v in cfgs.items()}, "ops": [dict(o, c=str(o["c"])) if "c" in o else o for o in ops], "target": target})
             pairs.append({"a": solo[key], "b": len(jobs) - 1, "rule": "identity", "scenario": cfgs[c],
                           "label": {"history": [(o["op"], o["i"], o.get("c", o.get("k", ""))) for o in h], "target": target}})
+    # the SAME user objects (soil, crop, management, groundwater, CO2, weather table) handed to two different models: model A over another window is
+    # built from them and run, then model B from the very same objects - B must give what B gives alone with fresh objects (equiv.build, "_prelude")
+    sched = [["2001/05/05", 30], ["2001/06/10", 40], ["2002/05/08", 25], ["2002/06/20", 35], ["2003/05/15", 22]]
+    shared = [S("Maize", "SandyLoam", seed=seed + 31, year=2002, irr={"method": 3, "schedule": sched}),
+              S("Tomato", "Clay", seed=seed + 32, year=2002, co2={"constant_conc": True}),
+              S("Barley", "Loam", seed=seed + 33, year=2002, co2={"co2_data": [[1990, 355.0], [2001, 371.0], [2002, 384.0], [2010, 395.0]]}),
+              S("Wheat", "Loam", seed=seed + 34, year=2002),
+              S("MaizeGDD", "Default", seed=seed + 35, year=2002, regime="hot"),
+              S("Potato", "Sand", seed=seed + 36, year=2002, gw={"water_table": "Y", "method": "Variable", "dates": ["2001/01/01", "2002/07/01", "2003/12/31"], "values": [2.0, 0.8, 1.7]},
+                field={"bunds": True, "z_bund": 0.05, "bund_water": 30})]
+    if tier == "thorough":
+        shared += [S(c, rnd.choice(L.SOILS), seed=rnd.randrange(10 ** 6), year=2002, irr=rnd.choice(L.irr_variants(rnd, None, None, (4, 20), 2002)),
+                     co2=rnd.choice([None, {"constant_conc": True}, {"constant_conc": True, "current_concentration": 480.0}]),
+                     field=rnd.choice(L.field_variants())) for c in rnd.sample([c for c in L.CROPS if L.MATURITY_CD[c] < 240], 12)]
+    for sc in shared:
+        a = len(jobs)
+        jobs.append({"kind": "plain", "scenario": sc})
+        for pre in ({"start": sc["start"].replace("2002", "2001"), "end": sc["end"].replace("2002", "2001")},       # same length, a year earlier
+                    {"start": "2001/02/01", "end": sc["end"]}):                                                    # a longer window containing B's
+            b = dict(sc)
+            b["_prelude"] = pre
+            jobs.append({"kind": "plain", "scenario": b})
+            pairs.append({"a": a, "b": len(jobs) - 1, "rule": "identity", "scenario": b, "label": {"shared_objects_after": pre, "crop": sc["crop"]["name"]}})
     # determinism across fresh interpreter processes and hash seeds: results computed in subprocesses
     presup = {}
     for c, sc in cfgs.items():
